@@ -550,7 +550,9 @@ def site_key(fn, s, v1=False):
     d = (descriptor_v1 if v1 else descriptor)(fn, s)
     if s["kind"] == "Call" and (d.startswith("panicking::panic_fmt(") or d.startswith("panicking::panic(") or d.startswith("panicking::panic_display(")):
         return "%s|panic!" % panic_owner(fn)
-    return re.sub(r"\{closure#\d+\}", "{closure}", "%s|%s|%s" % (fn.name, s["kind"], d))
+    # keyed by the top-level function: whether the site sits in the body or in a closure written inside it (`.map(|x| ..)` vs
+    # `let x = ..?;`) is a matter of style
+    return "%s|%s|%s" % (re.sub(r"(::\{closure#\d+\})+", "", fn.name), s["kind"], re.sub(r"(::\{closure#\d+\})+", "", d))
 
 
 def panic_owner(fn):
